@@ -64,8 +64,10 @@ Target(r) ==
               IF r.path \in {"local", "delete"} /\ pre.cap # "write"
               THEN r.res = "ReadOnly" /\ Same(pre, post, {"st"})
               ELSE /\ r.res \in {"ok", "NewerEntryExists"}        \* write attempts are never refused for capability
-                   /\ (r.res = "ok") = PutOk(St(pre), r.e)
-                   /\ St(post) = Put(St(pre), r.e)
+                   \* (which of the two is the admission rule's business, C02; here: an accepted entry is held,
+                   \*  a refused one changes nothing)
+                   /\ r.res = "ok" => r.e \in St(post)
+                   /\ r.res # "ok" => Same(pre, post, {"st"})
          /\ Prop \in {"C16", "C18"} => (r.res # "ok" => Same(pre, post, {"st"}))
     [] r.ev = "Peer" ->
          /\ Same(pre, post, Fields \ {"peers"})
